@@ -329,3 +329,48 @@ From Prophy Require Import PcValidate.
 
 (* legality (C12): the documented rules and the model of the front-end's checks on one schema *)
 Definition accept_flags (t : ty) : list Z := [b2z (legal t); b2z (pc_accepts t); 7].
+
+From Prophy Require Import PcFiles.
+
+(* file processor (C16, C20): the model run on the same files and main files; [] when the outcomes (include trees
+   or the failure) and the order in which files were handed to the content processor are those observed *)
+Fixpoint node_eqb (a b : node) {struct a} : bool :=
+  match a, b with
+  | NDef x, NDef y => Nat.eqb x y
+  | NInc p xs, NInc q ys =>
+      Nat.eqb p q && (fix go (l1 l2 : list node) : bool :=
+                        match l1, l2 with
+                        | [], [] => true
+                        | x :: r1, y :: r2 => node_eqb x y && go r1 r2
+                        | _, _ => false
+                        end) xs ys
+  | _, _ => false
+  end.
+
+Fixpoint nodes_eqb (l1 l2 : list node) : bool :=
+  match l1, l2 with
+  | [], [] => true
+  | x :: r1, y :: r2 => node_eqb x y && nodes_eqb r1 r2
+  | _, _ => false
+  end.
+
+Definition fres_eqb (a b : fres) : bool :=
+  match a, b with
+  | FOk x, FOk y => nodes_eqb x y
+  | FErr (ECyclic p), FErr (ECyclic q) | FErr (EMissing p), FErr (EMissing q) => Nat.eqb p q
+  | FErr EFuel, FErr EFuel => true
+  | _, _ => false
+  end.
+
+Fixpoint list_eqb {A} (eq : A -> A -> bool) (l1 l2 : list A) : bool :=
+  match l1, l2 with
+  | [], [] => true
+  | x :: r1, y :: r2 => eq x y && list_eqb eq r1 r2
+  | _, _ => false
+  end.
+
+Definition files_case (fs : path -> option (list item)) (mains : list path) (obs : list fres) (obs_log : list path) : list Z :=
+  let '(st, rs) := proc_mains fs 64 st0 mains in
+  let a := list_eqb fres_eqb rs obs in
+  let b := list_eqb Nat.eqb (f_log st) obs_log in
+  if a && b then [] else [97; b2z a; b2z b].
